@@ -42,7 +42,21 @@ def ctor_fields(repo: Repo, cls_name: str, call: ast.Call) -> Optional[Dict[str,
     m = repo.method(ci, "__init__")
     if m is None:
         raise AnalysisError(f"{cls_name}.__init__ not found")
-    return bind_call(m[1], call, skip_first=1)
+    f = bind_call(m[1], call, skip_first=1)
+    if f is None:
+        return None
+    # a field computed through a forwarding helper (`_scale_op(op, t._scale, dtype=dtype, **kwargs)`) is the call the helper makes
+    from .kwprof import expand_forwarders
+    from . import core
+
+    def res(name):
+        for mi in repo.modules.values():
+            if mi.rel.startswith("optimum/quanto/tensor"):
+                r = repo.resolve(mi, name)
+                if r is not None and isinstance(r[1], ast.FunctionDef) and r[0].rel.startswith("optimum/"):
+                    return r[1]
+        return None
+    return {k: (expand_forwarders(v, res) if isinstance(v, ast.AST) and any(isinstance(c, ast.Call) and isinstance(c.func, ast.Name) and c.func.id.startswith("_") for c in ast.walk(v)) else v) for k, v in f.items()}
 
 
 def is_ctor(e, names=("QBytesTensor",)) -> bool:
